@@ -45,9 +45,11 @@ def parse_uncertainty(s):
         # Count digits after the decimal for value and produce
         # 0.00...0{unc} with the right number of zeros.
         # e.g., 23.0035(12) but not 23(1) or 23.0(1.0) or 23(1.0)
+        # 23.0(12) is 23.0 +/- 1.2: unc is in units of the last digit of value.
         if '.' not in unc and '.' in value:
-            zeros = len(value.split('.')[1]) - len(unc)
-            unc = "0." + ("0"*zeros) + unc
+            digits = len(value.split('.')[1])
+            unc = unc.rjust(digits+1, "0")
+            unc = unc[:len(unc)-digits] + "." + unc[len(unc)-digits:]
         return float(value), float(unc)
 
     # Plain value with no uncertainty
